@@ -1,10 +1,14 @@
 package dbsim
 
 import (
+	"fmt"
+	"runtime"
 	"sync"
 	"time"
 
 	"github.com/cilium/statedb"
+
+	"verifharness/hookctl"
 )
 
 // metricsRec records the graveyard and object counts reported by the DB.
@@ -108,5 +112,45 @@ func (s *Sim) noTrackerCheck(what string, t *simTable) {
 	s.gcChecks++
 	if grave != 0 {
 		s.Violate("gc", "retained-without-iterator", "%s: table %s has no open change iterator but its graveyard holds %d objects after the commit", what, t.name, grave)
+	}
+}
+
+// RegistrationMonitor returns a hook function (for hookctl.OnPoint, dispatched by handle name) that lets a table registration
+// run into some of this history's commits: started while the committer is inside the root critical section (commit.rootLocked),
+// it queues on the root lock and must not undo anything the commit publishes. RunTxn waits for it after Commit returned.
+func (s *Sim) RegistrationMonitor(ctl *hookctl.Ctl) func(point, handle string) {
+	return func(point, handle string) {
+		if point != "commit.rootLocked" || handle != s.Handle || s.regPending != nil || s.Failed {
+			return
+		}
+		s.regTick++
+		if s.regTick%5 != 0 {
+			return
+		}
+		name := fmt.Sprintf("reg%d", s.regTick)
+		hN := fmt.Sprintf("%s-reg%d", s.Handle, s.regTick)
+		done := make(chan struct{})
+		s.regPending = done
+		db := s.DB
+		go func() {
+			defer close(done)
+			statedb.NewTable(db.NewHandle(hN), name, IDIndex)
+		}()
+		// no sleeping here (virtual time must not be needed while a lock is held): spin until the registration has started
+		for i := 0; i < 50000 && ctl.At(hN) != "register.beforeLock"; i++ {
+			runtime.Gosched()
+		}
+		for i := 0; i < 200; i++ {
+			runtime.Gosched()
+		}
+		s.registrations++
+	}
+}
+
+// waitRegistration is called after Commit returned.
+func (s *Sim) waitRegistration() {
+	if s.regPending != nil {
+		<-s.regPending
+		s.regPending = nil
 	}
 }
